@@ -35,9 +35,12 @@ check(s) in the third column; the one exception is an equivalent mutant (explain
 
 ### 7.2 Seeded changes written by independent sub-agents (`seeded/<id>-<n>/`)
 
-For each property a fresh sub-agent was given only the text of the property and a scratch git worktree of /repo under
-/tmp (nothing from /verif) and asked for two changes that break the property, keep the 413 existing tests green and need
-something specific to manifest, each with a demonstration program. Every change was confirmed here before it was kept
+In three rounds, fresh sub-agents were given only the text of a property and a scratch git worktree of /repo under /tmp
+(nothing from /verif) and asked for two changes per property that break it, keep the 413 existing tests green and need
+something specific to manifest, each with a demonstration program. Round 1 (-1, -2: one agent per property) and round 2
+(-3, -4: also told to prefer cooperating sites and less obvious places) covered all 19 properties; round 3 (-5, -6: ten
+properties, told to make the change HARD TO FIND BY RANDOM TESTING - a conjunction of two or three specific conditions -
+and to avoid the ideas of the earlier rounds) was aimed at the properties whose checks had needed strengthening. Every change was confirmed here before it was kept
 (`tools/seedcheck.sh`: suite with the change: 413 passed; demo without the change: exit 0; demo with the change: exit 1)
 and then the quick tier of the property's check was run against the changed tree. {n} changes were kept. {n - missed_first}
 were caught by the first version of the checks; {missed_first} were missed at first and led to the strengthenings described in
